@@ -201,6 +201,10 @@ var Decorations = []string{
 	"/*/\n**/",
 	// extended: a line comment that contains a block opener
 	"// /*\n",
+	// extended: comment text that ends in a backslash right before the terminator (an escape-aware scanner must not
+	// treat the terminator as escaped: escapes exist only inside strings)
+	"/* c:\\*/",
+	"// c:\\\n",
 }
 
 // BaseDecorations is the number of leading elements of Decorations that form
@@ -208,7 +212,7 @@ var Decorations = []string{
 const BaseDecorations = 7
 
 // DecorationNames are used in violation keys.
-var DecorationNames = []string{"none", "space", "line", "block", "line-quotes", "block-quotes-slashes", "block-empty", "block-slash-newline-stars", "line-with-block-opener"}
+var DecorationNames = []string{"none", "space", "line", "block", "line-quotes", "block-quotes-slashes", "block-empty", "block-slash-newline-stars", "line-with-block-opener", "block-ending-in-backslash", "line-ending-in-backslash"}
 
 // IsComment reports whether decoration d contains a comment.
 func IsComment(d int) bool { return d >= 2 }
